@@ -49,6 +49,22 @@ CLAIMS = {
         note=TB + 'Evaluator side (unit QBK): ensureQubitActive raises a Runtime error located at the given line/column iff the handle is out of range or flagged; markMeasured/unmarkMeasured/releaseQubit/allocateTrackedQubit move the '
              'flag as the state machine says and keep the other entries. NOT verified: that every built-in gate / measure site calls ensureQubitActive before the simulator, the pairing of evaluator and simulator flags across eval/exec, and the access paths.',
         ref='DESIGN.md §4 C06'),
+    'C07': dict(
+        text='Kernel only: proof, for every operand tag combination and every operand value (all 2^64 bit patterns per operand), that the BinaryExpression / UnaryExpression / LiteralExpression branches of eval follow the '
+             'documented semantics: result tag float if any float, else long if any long, else int; + - * on the promoted operands; / always float with a located error on a zero divisor; integer % with a located error on zero; '
+             'comparisons on the promoted pair; && || ! on boolean/bit; & | ^ ~ on bits and element-wise on equal-length bit arrays (ghost element index, loop invariants) with a located error on a length mismatch; unary minus keeps the tag; '
+             'literal tag follows the literal type, string/char payloads are the quoted text.',
+        note=TB + 'Regions are addressed structurally in the real eval; operand evaluation (recursive eval) is an assumed stub. Double arithmetic and the VALUE of integer * / % are uninterpreted functions (code and specification are built '
+             'from the same symbols; bitwise equality); 32/64-bit + and - are specified modulo 2^n. NOT covered: casts, postfix ++/--, index bounds, string concatenation/formatting (valueToString is opaque), control flow, calls, '
+             'scoping, arrays with value semantics, echo - i.e. everything the property says about whole programs beyond these three branches.',
+        ref='DESIGN.md §4 C07'),
+    'C12': dict(
+        text='Kernel only: (a) every lowered unit (SIM, LEX, UPD, QBK, ARITH, PTAB) carries CBMC bounds / pointer / division / shift obligations on every harness: for any input satisfying the stated invariants those functions never index out of range; '
+             '(b) the arithmetic branches of eval can only end in a value or a located Runtime error: explicit no-trap obligations on every signed / and % (INT_MIN / -1, x / 0), no raw C++ exception from literal conversion '
+             '(std::stoi / stoll / stof modelled as possibly failing on long text), nor from the lexer (string_view::substr), the version parser or the qubit bookkeeping.',
+        note=TB + 'NOT covered (stated so nobody reads a green check as covering it): container / lifetime behaviour that the lowering abstracts away - vtable pointers into a growing std::vector, teardown order after an error with a live '
+             'qubit-owning object (a confirmed SIGSEGV, design_probes/repro/C12_runtime_error_with_live_object_segv.bloch), recursion depth, null references, the class system. Signed + - * overflow is treated as wrapping (no trap).',
+        ref='DESIGN.md §4 C12'),
     'C13': dict(
         text='Proof for the lexer (every member function): every loop terminates (decreases clause on bytes left), every source access is in bounds, every cursor move is '
              'forward, and tokenize ends either with exactly one Lexical diagnostic or with a token vector ending in Eof after consuming the whole source - for any byte string up to 1 MiB. '
